@@ -36,6 +36,14 @@ CLAIMS = {
              "All other partitioners / 2d / 3d / for_each / invoke are exercised by real-thread runs with the exactly-once/tiling predicate.",
         note="Partial: auto/static/affinity partitioner state machines, the float proportional split and the nd ranges are not yet modelled in Coq (oracle-only).",
         ref="4/C05"),
+    "C16": dict(
+        technique="Coq proof (induction over clients and priority levels, nia for the proportional division) of the worker-allotment arithmetic for every demand vector; differential correspondence with the real market object; real-thread oracle for slots/limits/observers",
+        text="For every demand vector and soft limit L>=1 the theorems give: granted workers sum to min(total demand, L), nobody gets more than requested, priority level i receives "
+             "min(D_i, remainder), the rounding carry is 0 at every level end; for L=0 at most one mandatory worker, only to an arena with enqueued work. The model of "
+             "adjust_demand/set_active_num_workers/update_request is compared with the real market+arena objects after every call.",
+        note="Partial: slot uniqueness, concurrency bound, reserved slots, observer pairing, global_control worker bound and isolation are checked by real-thread oracle runs, not proved "
+             "(no Coq model of try_occupy / observers yet); the write-back glue of reallot (which client receives which result) is tied only by the differential check.",
+        ref="4/C16"),
 }
 
 REASONS_TODO = "check not built yet in this round; the design (DESIGN.md section 4) applies and it is planned — listed here only because no check is registered"
